@@ -71,9 +71,27 @@ func (c *Ctx) ruleT3() {
 					}
 				}
 			})
-			if len(tests) == 0 && c.logIDCheckedByHelper(f, d) {
-				c.ok("T3", cons, call.Pos(), "a helper given the fetched log compares every entry's log id with the store's and its error makes the fetch step fail")
-				continue
+			// the comparison applies to everything that is fetched: no path from the fetch to a
+			// successful return goes round it (a test made for some kinds of queue item only
+			// lets the others through unchecked)
+			skippable := func(via instrPred) (ssa.Instruction, []token.Pos) {
+				start := after(call)
+				if cc, ok := call.(ssa.CallInstruction); ok {
+					if st, _, tested := okStart(cc); tested {
+						start = st
+					}
+				}
+				return findPath(f, start, via, successReturn, nil)
+			}
+			if len(tests) == 0 {
+				if hc := c.logIDCheckedByHelper(f, d); hc != nil {
+					if hit, tr := skippable(func(in ssa.Instruction) bool { return in == ssa.Instruction(hc) }); hit != nil {
+						c.bad("T3", cons, hit.Pos(), "the fetch step can return successfully without having compared the log id of what it fetched with the store's: what goes round the comparison (a kind of queue item, a flag) is merged unchecked, and an entry of ANOTHER database ends up among this log's heads", c.trailStr(tr)...)
+					} else {
+						c.ok("T3", cons, call.Pos(), "a helper given the fetched log compares every entry's log id with the store's and its error makes the fetch step fail")
+					}
+					continue
+				}
 			}
 			if len(tests) == 0 {
 				c.bad("T3", cons, call.Pos(), "the fetch step never compares the log id of what it fetched with the store's: the fetched log is created with the store's id whatever its entries say, and Join merges that log's heads even when it adds none of its entries, so a valid entry of ANOTHER database (announced as a head or referenced as an ancestor) shows up among this log's heads and values")
@@ -88,6 +106,41 @@ func (c *Ctx) ruleT3() {
 				}
 			}
 			if !viol {
+				// the calls that enumerate the fetched log for the comparison
+				recvs := map[ssa.Value]bool{}
+				for _, iff := range tests {
+					bo := iff.Cond.(*ssa.BinOp)
+					for _, v := range []ssa.Value{bo.X, bo.Y} {
+						if cl, ok := v.(*ssa.Call); ok && methodName(cl) == "GetLogID" {
+							recvs[cl.Common().Value] = true
+						}
+					}
+				}
+				enum := map[ssa.Instruction]bool{}
+				eachCall(f, func(cc ssa.CallInstruction) {
+					cv := cc.Value()
+					if cv == nil || !d[cv] || cv == fv {
+						return
+					}
+					r := recvOf(cc)
+					if r == nil || (r != fv && !d[r]) {
+						return
+					}
+					dd := derived([]ssa.Value{cv}, flowOpts{throughCalls: true})
+					for rv := range recvs {
+						if dd[rv] {
+							enum[cc] = true
+						}
+					}
+				})
+				if len(enum) > 0 {
+					if hit, tr := skippable(func(in ssa.Instruction) bool { return enum[in] }); hit != nil {
+						viol = true
+						c.bad("T3", cons, hit.Pos(), "the fetch step can return successfully without having compared the log id of what it fetched with the store's: what goes round the comparison (a kind of queue item, a flag) is merged unchecked, and an entry of ANOTHER database ends up among this log's heads", c.trailStr(tr)...)
+					}
+				}
+			}
+			if !viol {
 				c.ok("T3", cons, call.Pos(), "a fetched entry whose log id differs from the store's makes the fetch step fail")
 			}
 		}
@@ -97,10 +150,10 @@ func (c *Ctx) ruleT3() {
 
 // logIDCheckedByHelper: f hands the fetched log to a same-package function that compares the
 // entries' log id and returns an error on the mismatching edge, and f leaves on that error.
-func (c *Ctx) logIDCheckedByHelper(f *ssa.Function, d map[ssa.Value]bool) bool {
-	found := false
+func (c *Ctx) logIDCheckedByHelper(f *ssa.Function, d map[ssa.Value]bool) ssa.CallInstruction {
+	var found ssa.CallInstruction
 	eachCall(f, func(call ssa.CallInstruction) {
-		if found {
+		if found != nil {
 			return
 		}
 		if _, isGo := call.(*ssa.Go); isGo {
@@ -156,7 +209,7 @@ func (c *Ctx) logIDCheckedByHelper(f *ssa.Function, d map[ssa.Value]bool) bool {
 			}
 		})
 		if okTest && !bad {
-			found = true
+			found = call
 		}
 	})
 	return found
